@@ -8,11 +8,35 @@ for l in open(os.path.join(HERE, "properties.jsonl")):
 
 E2 = "pathsym (z3-backed dynamic symbolic execution of the real methods over a symbolic file-system/crash/fault/schedule environment)"
 E1 = "CrossHair 0.0.110 symbolic execution of the real leaf functions (z3)"
+STEP = "pathsym: one inductive step of the real API methods from an arbitrary state satisfying Inv (z3 variables); obligations discharged by z3 validity queries; counterexamples replayed natively on the real file system"
+BND = "Bounds: identifier/content/format universe listed in evidence.bounds (|P|=3 quick, 4 thorough; contents up to 3 model buffers; one never-stored cid); symfs POSIX model (validated by native replay of every counterexample); z3 5.1; Inv and the reference model are the checker's. Exit 2 = inconclusive."
 CHECKS = {
- # id: (technique, level text, note, design_ref)
- "C05": (E2 + "; one inductive step from an arbitrary Inv state; Inv closure and reference-model equality discharged by z3",
-         "Bounded symbolic execution of the real API methods: for every state satisfying the representation invariant (symbolic) and every call over the universe, z3 shows Inv(post), post = model(pre, call) and the documented result class; by induction this covers call histories of any length inside the identifier/content universe. Counterexamples are replayed natively on the real file system before being reported.",
-         "Bounds: |P|=3(4) pids incl. prefix/case variants, 2(3) contents + one never-stored cid, 3(5) formats; symfs POSIX model (validated by native replay); z3 5.1; reference model and Inv are the checker's.", "2/C05"),
+ "C01": ("CrossHair symbolic execution of Stream/_write_to_tmp_file_and_get_hex_digests (symbolic bytes, offset, buffer size) + " + STEP,
+         "E1: all paths of the real streaming/temp-file code for symbolic content (<=5/8 bytes), caller offset and buffer size are confirmed by CrossHair/z3. E2: store_object with each of the four data kinds (solver-chosen stream offset) under each of the five store algorithms from an arbitrary symbolic store state returns cid = hashlib digest and true size and retrieve_object returns the bytes; calls on other pids leave the binding and object untouched (frame discharged by z3), which covers interleaved histories by induction.",
+         BND + " hashlib trusted; recording hashlib stand-in in the E1 kernel.", "2/C01"),
+ "C02": (STEP + "; structured symbolic spellings (algorithm x case mask x separator); per-instance algorithm list part of Inv",
+         "For every contract-accepted spelling of the 12 algorithms as additional_algorithm, checksum_algorithm and in get_hex_digest, from arbitrary symbolic store state: key set = 5 defaults + requested, values = hashlib digests; history independence by induction (instance algorithm list is in Inv and closed under every call; follow-up call on the same instance reports five keys).",
+         BND + " Spellings limited to the structured template.", "2/C02"),
+ "C03": (STEP + "; binding immutability and frame as z3 formulas",
+         "For every Inv state and every store/tag/delete/delete_if_invalid call over the universe: bound pid => documented already-exists class and unchanged binding, every other pid's reference and list membership unchanged; unbound => binds; rebinding only via the delete transition. Inductive: all histories inside the universe.", BND, "2/C03"),
+ "C04": (STEP + "; C04 as one z3 formula over all cids/pids",
+         "For every Inv state and every call (nine methods, rejected calls, wrong validation data, metadata calls): forall cid: referenced-after and present-before => present-after with unchanged bytes, proved over all untouched pids at once; obj' = model (last delete removes the object).", BND, "2/C04"),
+ "C05": (STEP + "; Inv closure and reference-model equality",
+         "For every Inv state and every call over the universe z3 shows Inv(post), post = model(pre, call), documented result class, no temp/_delete residue; delete_object succeeds from every partial condition the API can create (binding to a cid without object, shared lists with prefix pids). Inductive over histories of any length inside the universe.", BND, "2/C05"),
+ "C06": (STEP + "; verdict oracle (hashlib, casefold, integer equality)",
+         "Every (entry point, algorithm spelling, checksum variant incl. case and single-digit edits, size variant) from arbitrary symbolic prior state of the content (absent / unreferenced / referenced): verdict equals the oracle; invalid => mismatch class, no binding, no new object / object removed iff unreferenced, no temp file; valid => nothing rejected or deleted.", BND + " delete_if_invalid_object precondition: descriptor of a present object.", "2/C06"),
+ "C11": (STEP + " on the metadata cells",
+         "For every Inv state and every store/retrieve/delete_metadata and delete_object call: meta' = model(meta, call) by z3 (all other (pid, format) cells stay the untouched variables), retrieve returns the stored version, absent => ValueError / silent no-op; concatenation-colliding (pid, format) pairs in the universe.", BND, "2/C11"),
+ "C15": ("CrossHair on _shard and the path builders (symbolic depth/width/digest) + pathsym enumeration of configuration selectors with a whole-tree oracle",
+         "E1: for symbolic depth 1-6, width 1-4 and digest strings of every real digest length CrossHair confirms the token structure of _shard and the path builders against an independent README-layout implementation. E2: all 120 configurations x a fixed script: the complete tree and hashstore.yaml equal the independently computed expected tree.",
+         "Finite configuration selectors: the solver enumerates (E2). Script identifiers are concrete. Independent layout implementation is the checker's.", "2/C15"),
+ "C17": (STEP + " over an invalid-argument grammar (no mutating operation on the trace) + CrossHair lemmas on the argument checkers",
+         "Every rejected call of the grammar (one and two bad parameters) and every read-only call from an arbitrary symbolic state: documented class, no mutating file-system operation on the trace, post = pre by z3. CrossHair confirms _check_string/_check_integer/_check_arg_format_id/checksum pairing for all strings (len<=3/4) and all ints.", BND + " Grammar is finite (E2).", "2/C17"),
+ "C18": (STEP + " over adversarial identifier alphabets; containment on the trace; CrossHair lemma on _check_string",
+         "For each adversarial alphabet (separators, '..', dashes, glob/shell characters, 5000-char prefix pairs, case variants, non-BMP) frame of all other identifiers' cells by z3, model equality, and every created path hex-only under the store root. E1: accepted identifier has no line-breaking/strippable character (all Unicode, len<=3/4).",
+         BND + " Identifiers are concrete selectors (hashing is a C boundary).", "2/C18"),
+ "C19": ("pathsym relational step: both procedures on two copies of one symbolic state in one path; z3 validity of post_A = post_B",
+         "From every Inv state, for each validation variant (absent, correct incl. upper-case and non-default algorithm, wrong checksum, wrong size): one-call and in-steps procedures give the same outcome, cid, size, default digests and equal post-states (z3) when valid; the same mismatch class, unchanged pid binding and undisturbed referenced objects when invalid.", BND, "2/C19"),
 }
 NA = {}
 def main():
